@@ -177,6 +177,7 @@ int main(int argc, char** argv) {
             if (job == 13) repetitions<Dot11Beacon>("Dot11Beacon", {3, 221}, {0, 1, 9, 255}, [&](Dot11Beacon& q, int t, int l) { q.add_option(Dot11::option((uint8_t)t, (size_t)l, big.data())); }, 0, NMAX);
             if (job == 14) repetitions<PPPoE>("PPPoE", {0x0101, 0x0105}, {0, 9, 255}, [&](PPPoE& q, int t, int l) { q.add_tag(PPPoE::tag((PPPoE::TagTypes)t, (size_t)l, big.data())); }, 65535, NMAX, 6, 4);
             if (job == 15) repetitions<IPv6>("IPv6", {0, 60, 43}, {6, 7, 22, 254}, [&](IPv6& q, int t, int l) { q.add_header(IPv6::ext_header((uint8_t)t, (size_t)l, big.data())); }, 0, NMAX);
+            if (job == 18) { Bytes huge = pattern(2046, 0x13); repetitions<IPv6>("IPv6", {0, 60}, {2030, 2038, 2039, 2040, 2046}, [&](IPv6& q, int t, int l) { q.add_header(IPv6::ext_header((uint8_t)t, (size_t)l, huge.data())); }, 0, 2); }
             if (job == 16) repetitions<RTP>("RTP", {1}, {0, 3}, [&](RTP& q, int t, int l) { if (l == 0) q.add_csrc_id(t); else { q.extension_bit(1); q.add_extension_data(t); } }, 0, NMAX);
             if (job == 17) repetitions<ICMP>("ICMP", {1}, {4, 7}, [&](ICMP& q, int t, int l) { q.type(ICMP::TIME_EXCEEDED); q.extensions().add_extension(ICMPExtension((uint8_t)t, (uint8_t)t)); (void)l; }, 0, th ? 300 : 100);
             if (job == 0) R.sample(jstr("family=P class=ICMPv6 a=prefix_info#0 b=mtu#0 ; family=H class=TCP ops=add34.0,rem34.0,add2.9"));
